@@ -72,6 +72,9 @@ fn ops(full: bool) -> Vec<Op> {
                 if full || VARS[i].2 {
                     v.push(Op::Set(i, Val::S(alt.into())));
                 }
+                if full && alt != "" {
+                    v.push(Op::Set(i, Val::S(String::new())));
+                }
             }
             Kind::I => {
                 let (a, b) = if i == 8 { (0, i64::MIN) } else { (-1, i64::MAX) };
